@@ -305,15 +305,17 @@ class Client(object):
                   not support PIPELINING.
 
         """
-        mailfrom = Reply(command=b'MAIL')
-        self.reply_queue.append(mailfrom)
-
+        # (built first: an address that cannot be encoded must not leave a
+        # reply in the queue that no command will ever be sent for)
         command = b''.join((b'MAIL FROM:<', self._encode(address), b'>'))
         if data_size is not None and 'SIZE' in self.extensions:
             command += b' SIZE='+self._encode(str(data_size))
         if auth is not None and 'AUTH' in self.extensions:
             authed = b'<>' if auth is False else self._xtext(auth)
             command += b' AUTH=' + authed
+
+        mailfrom = Reply(command=b'MAIL')
+        self.reply_queue.append(mailfrom)
         self.io.send_command(command)
 
         if 'PIPELINING' not in self.extensions:
@@ -333,10 +335,10 @@ class Client(object):
                   not support PIPELINING.
 
         """
+        command = b''.join((b'RCPT TO:<', self._encode(address), b'>'))
+
         rcptto = Reply(command=b'RCPT')
         self.reply_queue.append(rcptto)
-
-        command = b''.join((b'RCPT TO:<', self._encode(address), b'>'))
         self.io.send_command(command)
 
         if 'PIPELINING' not in self.extensions:
